@@ -84,6 +84,9 @@ func c11(c *Ctx) {
 	// A4: the parsers against reference encodings transcribed from the standard (independent of the writer)
 	ck.A3(r, c11SpecPairs(c))
 	ck.A3(r, c11PacketSpecPairs(c))
+	// the one-byte adaptation field and the stuffing-only field (packet.go: IsOneByteStuffing / newStuffingAdaptationField):
+	// the field made for n free bytes occupies exactly n bytes, whatever state its maker may hold (A2/stuffing of C01)
+	c01Stuffing(c, layout.New(c.P))
 	var fs []*ssa.Function
 	for _, n := range []string{"parsePacket", "parsePacketHeader", "parsePacketAdaptationField", "parsePCR", "writePacket", "writePacketHeader", "writePacketAdaptationField", "writePacketAdaptationFieldExtension", "writePCR"} {
 		fs = append(fs, c.fn(n))
